@@ -87,7 +87,7 @@ def out_dirs(root, name, kinds):
     return {k: os.path.join(base, k) for k in kinds}
 
 
-def argv_for(job, outs, skip=False, process_count=1, skip_missing_xml=False, transcriptions_file=None, paths_in_config=False):
+def argv_for(job, outs, skip=False, process_count=1, skip_missing_xml=False, transcriptions_file=None, paths_in_config=False, no_xml=False):
     flag = {"xml": "--output-xml-path", "render": "--output-render-path", "logits": "--output-logit-path",
             "alto": "--output-alto-path", "lines": "--output-line-path"}
     if paths_in_config:
@@ -97,15 +97,17 @@ def argv_for(job, outs, skip=False, process_count=1, skip_missing_xml=False, tra
                 "lines": "OUTPUT_LINE_PATH"}
         base = open(job["config"]).read()
         sect = "" if "[PARSE_FOLDER]" in base else "\n[PARSE_FOLDER]\n"
-        body = base + sect + "INPUT_IMAGE_PATH = %s\nINPUT_XML_PATH = %s\n" % (job["img"].replace("%", "%%"), job["xml"].replace("%", "%%"))
+        body = base + sect + "INPUT_IMAGE_PATH = %s\n" % job["img"].replace("%", "%%")
+        if not no_xml:
+            body += "INPUT_XML_PATH = %s\n" % job["xml"].replace("%", "%%")
         body += "".join("%s = %s\n" % (keys[k], d.replace("%", "%%")) for k, d in outs.items())
         cfg = os.path.join(job["root"], "config_paths_%s.ini" % hashlib.sha1(body.encode()).hexdigest()[:10])
         with open(cfg, "w") as f:
             f.write(body)
         a = ["parse_folder.py", "-c", cfg, "--device", "cpu", "--process-count", str(process_count)]
     else:
-        a = ["parse_folder.py", "-c", job["config"], "-i", job["img"], "-x", job["xml"], "--device", "cpu",
-             "--process-count", str(process_count)]
+        a = ["parse_folder.py", "-c", job["config"], "-i", job["img"]] + ([] if no_xml else ["-x", job["xml"]]) + [
+            "--device", "cpu", "--process-count", str(process_count)]
         for k, d in outs.items():
             a += [flag[k], d]
     if skip:
